@@ -101,6 +101,7 @@ type Exec struct {
 	frozen         bool
 	ctxErrs        map[string]Value
 	w              *Worker
+	funcs          map[*ssa.Function]int
 }
 
 type NdInput struct {
@@ -449,6 +450,9 @@ func (x *Exec) callBody(fn *ssa.Function, args []Value, caller *frame) Value {
 	x.depth++
 	if x.depth > 400 {
 		panic(pathEnd{Kind: "bound", Msg: "call depth > 400", Site: x.site()})
+	}
+	if x.funcs != nil && x.inInit == 0 {
+		x.funcs[fn]++
 	}
 	fr := &frame{fn: fn, env: make(map[ssa.Value]Value, 16), caller: caller}
 	for i, p := range fn.Params {
